@@ -26,7 +26,9 @@ def c11Line (line : String) : String :=
       let vm := Vm.run tb.env oracle tb.ticks ()
       let w := W.run tb.env (fun k => k * 31 + 5) tb.ticks ()
       let m := M.run stdHeap tb.env tb.ticks ()
-      s!"P\t{showRun vm}\t{showRun w}\t{runInfo vm}\t{showRun m}"
+      -- closure-style tables allocate no record per `@`: the memory model does not apply, the queue model is the prediction
+      let mobs := if tb.closureStyle then showRun w else showRun m
+      s!"P\t{showRun vm}\t{showRun w}\t{runInfo vm}\t{mobs}"
     | none => "bad-input"
   | _ => "bad-input"
 
